@@ -55,6 +55,18 @@ func c05modes(thorough bool) []c05mode {
 			return []string{"--llm-nav", "--target=to_s"}
 		}, false},
 		{"--llm-define", func(p gen.Prog) []string { return []string{"--llm-define"} }, false},
+		{"--llm-nav--target-class", func(p gen.Prog) []string {
+			if m := firstClass.FindStringSubmatch(p.Src); m != nil {
+				return []string{"--llm-nav", "--target=" + m[1]}
+			}
+			return []string{"--llm-nav", "--target=String"}
+		}, false},
+		{"--llm-define--class", func(p gen.Prog) []string {
+			if m := firstClass.FindStringSubmatch(p.Src); m != nil {
+				return []string{"--llm-define", "--class=" + m[1]}
+			}
+			return []string{"--llm-define", "--class=String"}
+		}, false},
 		{"--llm-class", func(p gen.Prog) []string { return []string{"--llm-class"} }, false},
 		{"--extends", func(p gen.Prog) []string {
 			if m := firstClass.FindStringSubmatch(p.Src); m != nil {
@@ -80,6 +92,7 @@ func c05(x *ctx) {
 	r.Assumptions = []string{"map iteration order, the only schedule-like nondeterminism that reaches the output, is owned at the granularity of range statements (11 sites, found mechanically)",
 		"goroutine/GC schedules cannot influence output (no finalisers, pointer-keyed maps, time or randomness in non-test sources)"}
 	progs := append(gen.Generated(), gen.DbpPrograms()...)
+	progs = append(progs, gen.TiePrograms()...)
 	corpus := gen.SortBySize(gen.Corpus(engine.RepoRoot))
 	nCorpus := 120
 	if thorough {
@@ -142,7 +155,7 @@ func c05(x *ctx) {
 		if addrRe.MatchString(out) {
 			cands = append(cands, cand{keys[i], "heap-address", out, out})
 		}
-		if !rr.Abnormal() && modes[keys[i].mi].name != "--define" {
+		if !rr.Abnormal() && modes[keys[i].mi].name != "--define" && !addrRe.MatchString(out) {
 			recs = append(recs, execRec{"default", refCases[i].Files, refCases[i].Argv, rr.Stdout})
 		}
 	}
@@ -153,7 +166,7 @@ func c05(x *ctx) {
 		policy string
 	}
 	var pks []pk
-	maxDev := 24
+	maxDev := 40
 	if thorough {
 		maxDev = 120
 	}
